@@ -246,7 +246,8 @@ theorem ierase_empty (t : ITier Int) (hwf : t.WF) (he : t.es = []) (a b : Int) (
         simp only [C12.clipLen, shiftBack]; omega
       simp only [if_true, shrinkStep, ITier.new, Option.getD_some, Option.getD_none, shrinkIvs, List.filterMap_nil,
         rejoin, this]
-      rw [mkITier_of_wf n [] lo _ (by intro _ h; cases h) List.Pairwise.nil (by intro _ h; cases h)]
+      rw [mkITier_of_wf n [] lo _ (by have := hwf.span; simp only [shiftBack] at *; omega) (by intro _ h; cases h)
+        List.Pairwise.nil (by intro _ h; cases h)]
       rfl
     · rename_i hc
       have : C12.clipLen lo hi a b = 0 := by simp only [C12.clipLen]; omega
